@@ -12,7 +12,7 @@
 //   path <kind> <field> <f:w> <dim> <f:lo> <f:hi> <f:frac> <factor> <npts> <f>*  -> cost=<f> len=<f>
 //                                                  (real PathGeometric::cost(objective) / length())
 // Header `solnrun`  (part C)
-//   run <planner> <obj> <field> <thr: def|inf|<f>> <env> <dim> <seed> <evals> <solves> <goalthr f> [<clear 0|1>]
+//   run <planner> <obj> <field> <thr: def|inf|<f>> <env> <dim> <seed> <evals> <solves> <goalthr f> [<history: 0|1|[cpks]*>]
 //        -> `run` header line, then one `snap` line per change of the solution set (printed from inside
 //           the termination condition), one `solve` line per solve, `clear` lines when clear=1
 //           (pdef->clearSolutionPaths() before every continued solve), `end`; each line: the problem
@@ -736,13 +736,20 @@ static bool doRun(const std::vector<std::string> &t)
     // run planner obj field thr env dim seed evals solves goalthr [clear]
     if (t.size() != 11 && t.size() != 12)
         return false;
-    bool clearBetween = false;
+    // history: one letter per continued solve (k >= 1): c = just continue, p = pdef->clearSolutionPaths(),
+    // k = planner->clear() (the problem definition keeps its solutions), s = planner->clear() + clearSolutionPaths()
+    // (what SimpleSetup::clear() does); "0"/"1" = all c / all p
+    std::string hist;
     if (t.size() == 12)
     {
-        auto c = parseBit(t[11]);
-        if (!c)
-            return false;
-        clearBetween = *c;
+        hist = t[11];
+        if (hist == "0")
+            hist = "";
+        else if (hist == "1")
+            hist = std::string(64, 'p');
+        for (char ch : hist)
+            if (ch != 'c' && ch != 'p' && ch != 'k' && ch != 's')
+                return false;
     }
     const std::string &pname = t[1], &kind = t[2];
     auto field = vp::parseNat(t[3]);
@@ -825,7 +832,13 @@ static bool doRun(const std::vector<std::string> &t)
                 mon.report("snap", k, c, "");
                 return c > budget;
             });
-            if (k > 0 && clearBetween)
+            char h = (k > 0 && k - 1 < hist.size()) ? hist[k - 1] : 'c';
+            if (h == 'k' || h == 's')
+            {
+                planner->clear();
+                std::cout << "plannerclear solve=" << k << std::endl;
+            }
+            if (h == 'p' || h == 's')
                 mon.clearSolutions(k);
             ob::PlannerStatus st = planner->solve(ptc);
             mon.report("solve", k, calls.load(), " status=" + clean(st.asString()));
